@@ -1,10 +1,10 @@
 CONSTANTS
   Subs = {1, 2}
   RegisterBeforeInit = FALSE
-  Literal = {}
+  Literal = {1}
   ReleaseOnRefusal = TRUE
   Streaming = {}
-INIT GenInit
-NEXT GenNext
-CONSTRAINT GenConstraint
+INIT Init
+NEXT Next
+INVARIANTS TypeOK NoDataRace AtMostOnce NobodyStuck GoodEnd
 CHECK_DEADLOCK FALSE
